@@ -120,7 +120,51 @@ def check_arb(seed):
     return None
 
 
-CHECKS = [("FCNAgent.submit_orders_by_market", check_fcn), ("MarketMakerAgent.submit_orders", check_mm), ("MarketMakerAgent.get_base_price", check_mm), ("ArbitrageAgent._submit_orders", check_arb)]
+def check_setups(seed):
+    """set-up from a configuration with constant parameters: every strategy parameter of the three agents equals the value configured under ITS OWN key"""
+    from pams.simulator import Simulator
+    rng = random.Random(seed)
+    sim = Simulator(prng=random.Random(1))
+    ms = [mk(i, 100.0 + i, sim=sim) for i in range(2)]
+    idx = mk(2, 100.0, cls=IndexMarket, sim=sim)
+    for m in ms + [idx]:
+        sim._add_market(m)
+    vals = {k: rng.choice([0.5, 1.5, 2.0, 3.25, 7.0]) for k in ("fundamentalWeight", "chartWeight", "noiseWeight", "noiseScale", "orderMargin", "netInterestSpread")}
+    ints = {k: rng.choice([2, 3, 5, 8, 13]) for k in ("timeWindowSize", "meanReversionTime", "orderTimeLength", "orderVolume")}
+    base = {"cashAmount": 1000, "assetVolume": 10}
+    f = FCNAgent(agent_id=0, prng=random.Random(seed), simulator=sim, name="f")
+    with_mr = rng.random() < 0.5; mt = rng.choice([None, "fixed", "normal"])
+    cfg = dict(base, fundamentalWeight=vals["fundamentalWeight"], chartWeight=vals["chartWeight"], noiseWeight=vals["noiseWeight"], noiseScale=vals["noiseScale"], timeWindowSize=ints["timeWindowSize"], orderMargin=vals["orderMargin"])
+    if with_mr:
+        cfg["meanReversionTime"] = ints["meanReversionTime"]
+    if mt:
+        cfg["marginType"] = mt
+    f.setup(cfg, [0])
+    want = dict(fundamental_weight=vals["fundamentalWeight"], chart_weight=vals["chartWeight"], noise_weight=vals["noiseWeight"], noise_scale=vals["noiseScale"], time_window_size=ints["timeWindowSize"],
+                order_margin=vals["orderMargin"], mean_reversion_time=ints["meanReversionTime"] if with_mr else ints["timeWindowSize"], margin_type=1 if mt == "normal" else 0)
+    for k, v in want.items():
+        if getattr(f, k) != v:
+            return f"FCNAgent.setup: {k} = {getattr(f, k)}, configured {v} (configuration {cfg})"
+    mm = MarketMakerAgent(agent_id=1, prng=random.Random(seed), simulator=sim, name="mm")
+    with_len = rng.random() < 0.5
+    cfg = dict(base, targetMarket="m1", netInterestSpread=vals["netInterestSpread"])
+    if with_len:
+        cfg["orderTimeLength"] = ints["orderTimeLength"]
+    mm.setup(cfg, [0, 1])
+    if mm.target_market is not ms[1] or mm.net_interest_spread != vals["netInterestSpread"] or mm.order_time_length != (ints["orderTimeLength"] if with_len else 2):
+        return f"MarketMakerAgent.setup: target {mm.target_market.name}, spread {mm.net_interest_spread}, order time length {mm.order_time_length}; configuration {cfg} (default length 2)"
+    ar = ArbitrageAgent(agent_id=2, prng=random.Random(seed), simulator=sim, name="ar")
+    cfg = dict(base, orderVolume=ints["orderVolume"], orderThresholdPrice=vals["orderMargin"])
+    if with_len:
+        cfg["orderTimeLength"] = ints["orderTimeLength"]
+    before = ar.order_time_length
+    ar.setup(cfg, [0, 1, 2])
+    if ar.order_volume != ints["orderVolume"] or ar.order_threshold_price != vals["orderMargin"] or ar.order_time_length != (ints["orderTimeLength"] if with_len else before):
+        return f"ArbitrageAgent.setup: volume {ar.order_volume}, threshold {ar.order_threshold_price}, order time length {ar.order_time_length}; configuration {cfg}"
+    return None
+
+
+CHECKS = [("FCNAgent.setup", check_setups), ("MarketMakerAgent.setup", check_setups), ("ArbitrageAgent.setup", check_setups), ("FCNAgent.submit_orders_by_market", check_fcn), ("MarketMakerAgent.submit_orders", check_mm), ("MarketMakerAgent.get_base_price", check_mm), ("ArbitrageAgent._submit_orders", check_arb)]
 
 
 def search(seed, tier, obligation, hints):
